@@ -38,6 +38,11 @@ type c06Case struct {
 	// for HoldMs of virtual time before it runs its handlers (0 = none). A goroutine that starts late is an ordinary schedule.
 	HoldDispatch int `json:"hold_dispatch"`
 	HoldMs       int `json:"hold_ms"`
+	// phase "joining": the adapter is slow (every join yields the processor SlowJoin times first, as an adapter backed by a remote store
+	// would block) and the cause strikes after JoinAt yields of its own, i.e. while a socket is registered and joining its own room or its
+	// first rooms. No virtual time is involved: the library holds mutexes across the join (DESIGN.md §2.2).
+	SlowJoin int `json:"slow_join"`
+	JoinAt   int `json:"join_at"`
 }
 
 func (c c06Case) class() string {
@@ -92,7 +97,8 @@ func evalC06(c c06Case) (f *Failure, nontrivial bool, out c06Result) {
 		}
 	}
 	nsNames := []string{"/", "/n2"}[:c.Namespaces]
-	msg := runRig(rigOpts{PingInterval: 2 * time.Second, PingTimeout: time.Second, ConnectTimeout: 3 * time.Second, UpgradeTimeout: 2 * time.Second}, func(r *rig) {
+	msg := runRig(rigOpts{PingInterval: 2 * time.Second, PingTimeout: time.Second, ConnectTimeout: 3 * time.Second, UpgradeTimeout: 2 * time.Second,
+		SlowJoin: c.SlowJoin}, func(r *rig) {
 		if c.HoldDispatch > 0 {
 			var dispatches atomic.Int64
 			r.setPoint(func(site string) {
@@ -247,6 +253,10 @@ func evalC06(c c06Case) (f *Failure, nontrivial bool, out c06Result) {
 			// the cause strikes while the Engine.IO / Socket.IO handshakes are still in progress
 		case "middleware":
 			time.Sleep(500 * time.Millisecond)
+		case "joining":
+			for i := 0; i < c.JoinAt; i++ {
+				runtime.Gosched()
+			}
 		case "upgrade":
 			time.Sleep(time.Duration(3+len(c.Cause)%6) * time.Millisecond)
 		case "idle":
@@ -440,7 +450,7 @@ func evalC06(c c06Case) (f *Failure, nontrivial bool, out c06Result) {
 				// A socket that is not the direct target of a namespace-level cause (the other namespace of the connection), or any socket while
 				// a burst is in flight, may also be ended by what the cause entails: packets still arriving for the namespace that was just
 				// left make the server close the whole connection (C05), which the remaining sockets see as a forced close.
-				if st.nsp != "/" || c.Phase == "burst" || c.Phase == "connecting" || c.Phase == "middleware" || c.Phase == "upgrade" {
+				if st.nsp != "/" || c.Phase == "burst" || c.Phase == "connecting" || c.Phase == "middleware" || c.Phase == "joining" || c.Phase == "upgrade" {
 					allowed = append(allowed, sio.ReasonForcedClose, sio.ReasonForcedServerClose, sio.ReasonTransportClose, sio.ReasonTransportError, sio.ReasonClientNamespaceDisconnect)
 				}
 				for _, a := range allowed {
@@ -535,7 +545,7 @@ func evalC06(c c06Case) (f *Failure, nontrivial bool, out c06Result) {
 	if res == nil && msg != "" && !isBubbleDeadlock(msg) {
 		res = fail("bubble-panic", "synctest: "+msg)
 	}
-	nontrivial = c.Phase == "middleware" || c.Phase == "burst" || c.Phase == "upgrade" || c.Phase == "connecting" || c.Cause2 != "" || c.Cause == "cut-at-byte"
+	nontrivial = c.Phase == "middleware" || c.Phase == "burst" || c.Phase == "upgrade" || c.Phase == "connecting" || c.Phase == "joining" || c.Cause2 != "" || c.Cause == "cut-at-byte"
 	return res, nontrivial, out
 }
 
@@ -547,7 +557,7 @@ func TestC06_CausesByPhases(t *testing.T) {
 	setT(t)
 	defer startWatchdog(t, 90*time.Second)()
 	ev := NewEv(t, "C06", c06Check, "rapid over termination cause {client Disconnect, Manager.Close, server Disconnect(false|true), DisconnectSockets(false|true), Server.Close, cut, black-hole} x phase {while "+
-		"connecting, while a namespace middleware runs, connected idle, inside a burst both ways, during the upgrade} x transport x 1-2 namespaces x optional second cause at the same instant x optionally one "+
+		"connecting, while a namespace middleware runs, while a socket joins its first rooms through a slow adapter, connected idle, inside a burst both ways, during the upgrade} x transport x 1-2 namespaces x optional second cause at the same instant x optionally one "+
 		"asynchronous lifecycle-handler dispatch held back for 1 / 50 / 700 ms (yield hook); verdict taken "+
 		"before teardown, 25 virtual seconds after the cause: per server socket either alive (listed and its client answers an ack round trip) or ended (disconnect handler exactly once, disconnecting "+
 		"before it, reason admissible for the cause, not listed, in no room, unknown to the adapter); listed sockets <= live clients; client sockets report once; old Engine.IO "+
@@ -555,9 +565,13 @@ func TestC06_CausesByPhases(t *testing.T) {
 	rapidGuard(t, "C06", c06Check)
 	runRapid(t, c06Check, tierN(8000, 80000), func(t *rapid.T) {
 		c := c06Case{Transport: rapid.SampledFrom([]string{"polling", "websocket", "upgrade"}).Draw(t, "transport"), Namespaces: rapid.IntRange(1, 2).Draw(t, "namespaces"),
-			Cause: rapid.SampledFrom(c06Causes).Draw(t, "cause"), Phase: rapid.SampledFrom([]string{"connecting", "middleware", "idle", "burst", "upgrade"}).Draw(t, "phase")}
+			Cause: rapid.SampledFrom(c06Causes).Draw(t, "cause"), Phase: rapid.SampledFrom([]string{"connecting", "middleware", "idle", "burst", "upgrade", "joining"}).Draw(t, "phase")}
 		if c.Phase == "upgrade" {
 			c.Transport = "upgrade"
+		}
+		if c.Phase == "joining" {
+			c.SlowJoin = rapid.SampledFrom([]int{50, 400}).Draw(t, "slowJoin")
+			c.JoinAt = rapid.IntRange(0, 1200).Draw(t, "joinAt")
 		}
 		if rapid.IntRange(0, 3).Draw(t, "two") == 0 {
 			c.Cause2 = rapid.SampledFrom(c06Causes).Draw(t, "cause2")
@@ -568,6 +582,15 @@ func TestC06_CausesByPhases(t *testing.T) {
 		if rapid.IntRange(0, 2).Draw(t, "hold") == 0 {
 			c.HoldDispatch = rapid.IntRange(1, 24).Draw(t, "holdDispatch")
 			c.HoldMs = rapid.SampledFrom([]int{1, 50, 700}).Draw(t, "holdMs")
+		}
+		if c.Phase == "joining" {
+			// a black hole during the handshake keeps mutexes for as long as the handshake hangs (see below); it is exercised in the other phases
+			if c.Cause == "blackhole" {
+				c.Cause = "server-close"
+			}
+			if c.Cause2 == "blackhole" {
+				c.Cause2 = ""
+			}
 		}
 		if c.Phase == "connecting" && (c.Cause == "blackhole" || c.Cause2 == "blackhole") {
 			// a black-holed dial keeps Manager.connectMu for as long as the dial hangs; a second socket's pending open then waits for that
